@@ -254,6 +254,7 @@ func TestUnionPruned(t *testing.T) {
 		counts := make([]int, n)
 		centres := make([]v2.Vec, n)
 		desc := make([]string, n)
+		nestedOps := 0
 		for i := 0; i < n; i++ {
 			leaf, d := drawLeaf(t, fmt.Sprintf("op%d", i), S)
 			var c v2.Vec
@@ -272,6 +273,21 @@ func TestUnionPruned(t *testing.T) {
 			ops[i] = counted{sdf.Transform2D(leaf, m), &counts[i]}
 			centres[i] = c
 			desc[i] = fmt.Sprintf("%s@(%s,%s)rot%s", d, ev.F(c.X), ev.F(c.Y), ev.F(a))
+			// an operand may itself be a union (plain or blended), handed over as the *UnionSDF2 the
+			// constructor returned; its leaves share the operand's evaluation counter
+			if rapid.IntRange(0, 4).Draw(t, fmt.Sprintf("op%d.nested-union", i)) == 0 {
+				leaf2, d2 := drawLeaf(t, fmt.Sprintf("op%d.second", i), S)
+				off := v2.Vec{X: g.Coord(t, fmt.Sprintf("o%d.x", i), 0.7*S), Y: g.Coord(t, fmt.Sprintf("o%d.y", i), 0.7*S)}
+				m2 := sdf.Translate2d(c.Add(off)).Mul(sdf.Rotate2d(a))
+				inner := sdf.Union2D(ops[i], counted{sdf.Transform2D(leaf2, m2), &counts[i]})
+				// the nested union keeps the plain minimum: a blended union's fillet can lie outside its
+				// bounding box (known finding C01:blend-fillet-outside-box), which breaks the premise of
+				// any box-based pruning above it - excluded by construction, see DESIGN.md 8.3
+				ib := "min"
+				ops[i] = inner
+				desc[i] = fmt.Sprintf("union[%s](%s, %s+(%s,%s))", ib, desc[i], d2, ev.F(off.X), ev.F(off.Y))
+				nestedOps++
+			}
 		}
 		bl := blend{name: "min"}
 		switch rapid.IntRange(0, 7).Draw(t, "blend") {
@@ -356,6 +372,26 @@ func TestUnionPruned(t *testing.T) {
 				}
 			}
 			slow := u.EvaluateSlow(p)
+			// the harness's own exhaustive evaluation: every operand's own Evaluate, folded in operand
+			// order with the installed function (the plain minimum by default)
+			ref := 0.0
+			for i := range ops {
+				x := ops[i].Evaluate(p)
+				switch {
+				case i == 0:
+					ref = x
+				case bl.f != nil:
+					ref = bl.f(ref, x)
+				default:
+					ref = math.Min(ref, x)
+				}
+			}
+			if bl.f == nil && slow != ref && !(math.IsNaN(slow) && math.IsNaN(ref)) {
+				rec.Violation(t, "Union2D:EvaluateSlow-is-not-the-minimum-over-operands", "ops %v p %v: EvaluateSlow=%v, minimum of the operands' own values %v", desc, p, slow, ref)
+			}
+			if bl.f != nil && math.Abs(slow) > 1e-9*S && math.Abs(ref) > 1e-9*S && (slow < 0) != (ref < 0) {
+				rec.Violation(t, "Union2D:EvaluateSlow-sign-differs-from-fold-over-operands", "ops %v blend %s(%v) p %v: EvaluateSlow=%v, %s folded over the operands' own values %v", desc, bl.name, bl.k, p, slow, bl.name, ref)
+			}
 			if nEval < n {
 				prunedSomewhere = true
 				rec.Add("union:points-with-pruning", 1)
@@ -374,7 +410,7 @@ func TestUnionPruned(t *testing.T) {
 			// sign disagreement under a blend: classify by what the pruned operands are
 			prunedInside := false
 			for i := 0; i < n; i++ {
-				if !evaluated[i] && ops[i].(counted).s.Evaluate(p) < 0 {
+				if !evaluated[i] && ops[i].Evaluate(p) < 0 {
 					prunedInside = true
 				}
 			}
@@ -384,7 +420,7 @@ func TestUnionPruned(t *testing.T) {
 				rec.Violation(t, "Union2D:blend-reaches-pruned-operand", "ops %v blend %s(%v) p %v: fast %v slow %v (evaluated %d of %d)", desc, bl.name, bl.k, p, fast, slow, nEval, n)
 			}
 		}
-		rec.Case(prunedSomewhere, ev.Key(desc, bl.name, bl.k), "union:layout="+layout, "union:blend="+bl.name, fmt.Sprintf("union:n=%d", n))
+		rec.Case(prunedSomewhere, ev.Key(desc, bl.name, bl.k), "union:layout="+layout, "union:blend="+bl.name, fmt.Sprintf("union:n=%d", n), fmt.Sprintf("union:has-nested-union-operand=%v", nestedOps > 0))
 		rec.Sample("union:"+bl.name, map[string]any{"operands": desc, "blend": bl.name, "k": bl.k, "points": npts, "pruned_somewhere": prunedSomewhere})
 	})
 }
